@@ -256,13 +256,72 @@ def first_error(out):
     return (m.group(1) if m else out[-600:]).replace("\n", " | ")[:900]
 
 
+CACHE_DIR = os.path.join(os.path.dirname(os.path.dirname(os.path.abspath(__file__))), ".cache", "kani-results")
+
+
+def _overlay_hash():
+    import hashlib
+    h = hashlib.sha256()
+    base = os.path.dirname(os.path.dirname(os.path.abspath(__file__)))
+    for root in (OVERLAY, os.path.join(base, "kani", "support")):
+        for dp, dn, fn in sorted(os.walk(root)):
+            dn.sort()
+            for f in sorted(fn):
+                if f == "Cargo.lock" or "/target" in dp:
+                    continue
+                p = os.path.join(dp, f)
+                h.update(os.path.relpath(p, base).encode())
+                h.update(open(p, "rb").read())
+    for f in ("kanirun.py", "common.py"):
+        h.update(open(os.path.join(base, "vlib", f), "rb").read())
+    return h.hexdigest()
+
+
+def _cache_key(tree, ovl, o, row, timeout):
+    import hashlib
+    return hashlib.sha256(("|".join([tree, ovl, o["id"], o["harness"], row, ROWS[row], str(o.get("cbmc")), str(o.get("allow")), "kani-0.68.0"])).encode()).hexdigest()
+
+
 def run_selection(scratch, sel, tier, total_jobs=16):
     """sel: list of (obligation,row).  Rows run concurrently, each with its own
-    target dir.  -> {(id,row): result}"""
+    target dir.  -> {(id,row): result}
+
+    Results are memoised BY CONTENT: key = sha256(scratch copy of /repo's sources +
+    overlay + support crate + obligation + feature row + tool version).  A different
+    working tree is a different key, so this is observationally "rebuild from the
+    current tree"; only decided verdicts (discharged / failed) are stored; evidence
+    marks cached obligations; VERIF_NO_CACHE=1 disables it."""
+    import json
+    from .common import tree_hash
+    use_cache = not os.environ.get("VERIF_NO_CACHE")
+    results, lock = {}, threading.Lock()
+    keys = {}
+    if use_cache:
+        # hash of the pristine copy (taken before the overlay was applied: the overlay writes a
+        # scratch-specific path into Cargo.toml); the overlay itself is hashed separately
+        tree = getattr(scratch, "pristine_hash", None) or tree_hash(scratch.repo)
+        ovl = _overlay_hash()
+        os.makedirs(CACHE_DIR, exist_ok=True)
+        rest = []
+        for o, r in sel:
+            k = _cache_key(tree, ovl, o, r, 0)
+            keys[(o["id"], r)] = k
+            f = os.path.join(CACHE_DIR, k + ".json")
+            if os.path.exists(f):
+                try:
+                    res = json.load(open(f))
+                    res["cached"] = True
+                    results[(o["id"], r)] = res
+                    continue
+                except Exception:
+                    pass
+            rest.append((o, r))
+        if len(rest) < len(sel):
+            log("  kani: %d of %d obligations answered from the content-keyed cache" % (len(sel) - len(rest), len(sel)))
+        sel = rest
     by_row = {}
     for o, r in sel:
         by_row.setdefault(r, []).append(o)
-    results, lock = {}, threading.Lock()
     default_timeout = 900 if tier == "quick" else 2700
     nrows = max(1, len(by_row))
     # share the cores between the rows proportionally to their harness count
@@ -275,4 +334,16 @@ def run_selection(scratch, sel, tier, total_jobs=16):
         threads.append(t)
     for t in threads:
         t.join()
+    if use_cache:
+        for (oid, r), res in results.items():
+            if res.get("cached") or res.get("verdict") not in ("discharged", "failed"):
+                continue
+            k = keys.get((oid, r))
+            if k:
+                d = {x: y for x, y in res.items() if x != "raw_path"}
+                try:
+                    with open(os.path.join(CACHE_DIR, k + ".json"), "w") as fh:
+                        json.dump(d, fh)
+                except Exception:
+                    pass
     return results
